@@ -614,6 +614,20 @@ func c17WellFormed(key string, v []byte) bool {
 // by some reader for the first time at a different moment of the run)
 const c17Expired = 20000
 
+// c17NewConn is what server.ListenAndServe does for every accepted connection when the in-memory
+// backend is configured: the handler constructor inmem.New.
+func c17NewConn() *inmem.Handler {
+	hh, err := inmem.New()
+	if err != nil {
+		panic(err)
+	}
+	h, ok := hh.(*inmem.Handler)
+	if !ok {
+		panic(fmt.Sprintf("inmem.New() returned a %T", hh))
+	}
+	return h
+}
+
 func c17child(e *env) {
 	g, iters, tracePath := 2, 1000, ""
 	for _, a := range e.args {
@@ -627,7 +641,10 @@ func c17child(e *env) {
 		}
 	}
 	const owned = 40 // recorded commands per goroutine on its own keys
-	h := inmem.VerifNewFresh()
+	// Every "connection" (goroutine) obtains its handler the way the server does for each accepted
+	// connection: by calling inmem.New(). The child process is fresh, so the instance New() shares
+	// between connections is empty at this point.
+	h := c17NewConn()
 	shared := []string{"s0", "s1", "s2", "s3"}
 	for _, k := range shared {
 		h.Set(common.SetRequest{Key: []byte(k), Data: []byte(c17Record(k, 0, 0))})
@@ -657,6 +674,7 @@ func c17child(e *env) {
 			r := rig.NewRand(e.seed*1000003 + uint64(i) + 17)
 			cnt := map[string]int{}
 			counts[i] = cnt
+			h := c17NewConn()
 			cl := newC17Client(h)
 			own := []string{fmt.Sprintf("g%da", i), fmt.Sprintf("g%db", i)}
 			tr := c17ChildTrace{Goroutine: i, Keys: own}
@@ -779,6 +797,7 @@ func c17child(e *env) {
 			rw.Add(1)
 			go func(i int) {
 				defer rw.Done()
+				h := c17NewConn()
 				<-gate
 				okc[i] = h.Add(common.SetRequest{Key: key, Data: []byte(fmt.Sprintf("worker-%d", i)), Flags: uint32(i)}) == nil
 			}(i)
